@@ -23,8 +23,8 @@ import (
 
 	"github.com/openconfig/goyang/pkg/yang"
 	"verif/mc/core"
-	"verif/mc/explore"
 	"verif/mc/dump"
+	"verif/mc/explore"
 	"verif/mc/gen/lexspace"
 	"verif/mc/gen/scale"
 	"verif/mc/ref/rfcread"
@@ -492,6 +492,7 @@ func shards(tier string) []string {
 		out = append(out, fmt.Sprintf("L4/%d", i))
 	}
 	out = append(out, l6shards()...)
+	out = append(out, l8shards()...)
 	for i := 0; i < 8; i++ {
 		out = append(out, fmt.Sprintf("L7/%d", i))
 	}
@@ -499,7 +500,7 @@ func shards(tier string) []string {
 }
 
 func run(c *core.Ctx) {
-	c.Res.Bound = "L1/L2: the shared lexical spaces; L3: statement trees of <= 3 statements over 81 keywords (6 argument forms for <= 2 statements) at top level and under module/submodule headers; L4: 1-2 (thorough 3) files from a pool of self-, cross-, dangling and wrong-kind references x include/import links, both load orders; L6: 23 type bases x every ordered pair of 148 restriction statements with limit, wrap-around and malformed arguments (fraction-digits, range, length, enum value, bit position, pattern, path, base, require-instance, nested type) in a leaf, in a typedef and in a typedef narrowed twice; L7: 25 scale shapes (deep, wide, long chains open and cyclic, many imports / includes / groupings / uses / augments / deviations / leaves / identities over many modules, large counts of patterns, union members, bases, defaults, keys, musts, revisions, long arguments) at every size to 64 and around the powers of two to 512; L5: every single-statement edit (delete, duplicate, drop argument, each of 81 keywords, 9 arguments, hoist, self-nest) of 14 seed files"
+	c.Res.Bound = "L1/L2: the shared lexical spaces; L3: statement trees of <= 3 statements over 81 keywords (6 argument forms for <= 2 statements) at top level and under module/submodule headers; L4: 1-2 (thorough 3) files from a pool of self-, cross-, dangling and wrong-kind references x include/import links, both load orders; L6: 23 type bases x every ordered pair of 148 restriction statements with limit, wrap-around and malformed arguments (fraction-digits, range, length, enum value, bit position, pattern, path, base, require-instance, nested type) in a leaf, in a typedef and in a typedef narrowed twice; L7: 25 scale shapes (deep, wide, long chains open and cyclic, many imports / includes / groupings / uses / augments / deviations / leaves / identities over many modules, large counts of patterns, union members, bases, defaults, keys, musts, revisions, long arguments) at every size to 64 and around the powers of two to 512; L8: every sequence of <= 5 (6) of 16 pieces of path syntax (slashes, prefixed and bare names, . and .., keyword-like steps, whole and torn key predicates, a lone colon, blank, wildcard) through Entry.Find from the module entry and inner nodes, and of <= 3 (4) pieces as the argument of augment, deviation, leafref path, refine, uses-augment, key and unique; L5: every single-statement edit (delete, duplicate, drop argument, each of 81 keywords, 9 arguments, hoist, self-nest) of 14 seed files"
 	n := 0
 	emit := func(in Input) {
 		caseNo, ok := c.Begin()
@@ -576,6 +577,10 @@ func run(c *core.Ctx) {
 		var bi int
 		fmt.Sscanf(c.Shard, "L6/%d", &bi)
 		l6(c, bi, emit)
+	case "L8":
+		var first int
+		fmt.Sscanf(c.Shard, "L8/%d", &first)
+		l8(c, first, emit)
 	case "L5":
 		var gi, fi, part int
 		fmt.Sscanf(c.Shard, "L5/%d/%d/%d", &gi, &fi, &part)
@@ -598,7 +603,7 @@ func replay(tier string, raw json.RawMessage) (bool, string, string) {
 func init() {
 	core.Register(&core.Prop{
 		ID: "C01", Variant: "plain", Shards: shards, Run: run, Replay: replay,
-		Rule:        "every input of seven exhaustively enumerated layers (lexical spaces; type bodies whose restriction arguments sit at, inside and outside the limits the resolver computes with; statement trees over the whole keyword alphabet; cross-reference programs with self-, mutual, dangling, unknown-prefix and wrong-kind references across modules and submodules in all load orders; the single-edit neighbourhood of a seed corpus) is run through yang.Parse, Modules.Parse, Process, and - when processing is clean - ToEntry, GetErrors, a full guarded walk and Find with paths that exist and paths that do not, from the module entry and from inner nodes; the oracle is that every call returns: a Go panic is caught in-process, a fatal error or a hang kills the crash-isolated worker and is attributed to the case it had announced; states = distinct inputs; non-trivial = inputs that reach processing",
+		Rule:        "every input of eight exhaustively enumerated layers (lexical spaces; path arguments; type bodies whose restriction arguments sit at, inside and outside the limits the resolver computes with; statement trees over the whole keyword alphabet; cross-reference programs with self-, mutual, dangling, unknown-prefix and wrong-kind references across modules and submodules in all load orders; the single-edit neighbourhood of a seed corpus) is run through yang.Parse, Modules.Parse, Process, and - when processing is clean - ToEntry, GetErrors, a full guarded walk and Find with paths that exist and paths that do not, from the module entry and from inner nodes; the oracle is that every call returns: a Go panic is caught in-process, a fatal error or a hang kills the crash-isolated worker and is attributed to the case it had announced; states = distinct inputs; non-trivial = inputs that reach processing",
 		Assumptions: []string{"trees are read only after a Process that returned no errors", "a case that runs longer than 40 s is a hang (cases take microseconds to milliseconds)"},
 	})
 }
